@@ -9,6 +9,7 @@
   explicit, decidable hypothesis `TreeFits`.
 -/
 import HL.Lemmas.Format
+import HL.Generated.Expect.Format
 namespace HL.Props.C05
 open HL HL.Ast HL.FmtText HL.Fmt HL.EditSpec HL.Lemmas.FmtText HL.Lemmas.Format
 
@@ -22,6 +23,11 @@ def TreeFits (doc : Bytes) (j : Journal) : Prop :=
 
 instance (doc : Bytes) (j : Journal) : Decidable (TreeFits doc j) := by
   unfold TreeFits; infer_instance
+
+/-- The model's constants are the ones extracted from formatter.go (`minSpaces`,
+    `defaultIndentSize`); if the source changes them this stops compiling. -/
+theorem constants_match : Fmt.minSpaces = HL.Generated.Facts.minSpaces ∧
+    Fmt.defaultIndentSize = HL.Generated.Facts.defaultIndentSize := by decide
 
 /-! ### Shape of the posting edits -/
 
@@ -376,5 +382,180 @@ theorem alignment (j : Journal) (o : Options) (fm : Option Formats) (content : B
     · rw [List.append_assoc, ← hsp, runeCount_append _ _ (nonCont_isAscii _ (isAscii_spaces _)),
         hcur, runeCount_ascii _ (isAscii_spaces _), spaces_length]
       omega
+
+/-! ### Idempotence -/
+
+theorem trimRightCR_idem (c : Bytes) : trimRightCR (trimRightCR c) = trimRightCR c := by
+  induction c with
+  | nil => rfl
+  | cons b bs ih =>
+    simp only [trimRightCR]
+    split
+    · rfl
+    · rename_i h
+      simp only [trimRightCR, ih]
+      rw [if_neg h]
+
+/-- The comment clause of idempotence (DESIGN 8 #5, repaired): what is written after the
+    semicolon is the comment itself, so reading it back and writing it again gives the same
+    text — for every comment, with or without leading blank, with trailing blanks or a CR. -/
+theorem comment_stable (c : Bytes) : commentText ((commentText c).drop 3) = commentText c := by
+  unfold commentText
+  simp only
+  split
+  · simp only [List.drop_succ_cons, List.drop_zero, List.cons_append, List.nil_append, trimRightCR_idem]
+    rename_i h; simp only [h, if_true]
+  · rfl
+
+/-- The alignment data `formatTransactionWithOpts` uses for a transaction. -/
+def txAlignment (j : Journal) (tx : Transaction) (fm : Formats) (o : Options) (doc : Bytes) : AlignmentInfo :=
+  if o.alignAmounts then alignmentWithGlobal tx.postings (some fm) (effGlobalCol j o) doc else ⟨0, 0⟩
+
+/-- The text `formatText` writes for posting `p` of transaction `tx`. -/
+def postingText (j : Journal) (tx : Transaction) (p : Posting) (fm : Formats) (o : Options) (doc : Bytes) : Bytes :=
+  formatPostingWithOpts p (txAlignment j tx fm o doc) (some fm) (spaces (effIndent o)) o.alignAmounts doc
+
+/-- Guard of `idempotent_partial`: the document already has the shape formatting gives it,
+    with respect to its own syntax tree: every posting line that would be rewritten already
+    holds exactly the text that would be written, and no other line that would be trimmed has
+    trailing blanks.  (That the real parser reads a formatted document back as such a tree is
+    the parser's part of idempotence; the correspondence oracle checks the composition on the
+    real code.) -/
+def AlreadyFormatted (j : Journal) (errs : List ParseError) (doc : Bytes) (formats : Option Formats)
+    (o : Options) : Prop :=
+  let lines := splitLines doc
+  let skip := errs.map fun e => (e.pos.line : Int) - 1
+  (∀ tx ∈ j.transactions, ∀ p ∈ tx.postings, ¬ (postingLine p ∈ skip) →
+      content (lines.getD (p.range.start.line - 1) []) = postingText j tx p (effFormats j formats) o doc) ∧
+  (∀ n, n < lines.length → ¬ ((n : Int) ∈ (allPostings j).map postingLine ++ skip) →
+      trimRight (lines.getD n []) = lines.getD n [])
+
+/-- An edit that replaces the whole content of one line by the same text. -/
+def IsNoop (lines : List Bytes) (e : Edit) : Prop :=
+  e.sl = e.el ∧ e.sl.toNat < lines.length ∧ e.sc.toNat = 0 ∧
+    e.ec.toNat = u16len (content (lines.getD e.sl.toNat [])) ∧
+    e.newText = content (lines.getD e.sl.toNat [])
+
+theorem txEdits_mem (j : Journal) (doc : Bytes) (fm : Formats) (o : Options) (skip : List Int) (e : Edit)
+    (he : e ∈ txEdits j doc fm o skip) :
+    ∃ tx ∈ j.transactions, ∃ p ∈ tx.postings, ¬ (postingLine p ∈ skip) ∧
+      e = postingEdit (splitLines doc) p (postingText j tx p fm o doc) := by
+  unfold txEdits at he
+  obtain ⟨tx, htx, he⟩ := List.mem_flatMap.mp he
+  unfold formatTransaction at he
+  obtain ⟨p, hp, rfl⟩ := List.mem_map.mp he
+  obtain ⟨hp1, hp2⟩ := List.mem_filter.mp hp
+  refine ⟨tx, htx, p, hp1, ?_, rfl⟩
+  intro hmem
+  have : skip.contains (postingLine p) = true := List.contains_iff_mem.mpr hmem
+  rw [this] at hp2
+  cases hp2
+
+/-- **Idempotence, the formatter's part.** On a document that already has the formatted shape
+    (with respect to its own tree) every edit `formatText` returns replaces the content of a
+    line by the identical text, and the trimming pass returns nothing: formatting changes
+    nothing. -/
+theorem idempotent_partial (j : Journal) (errs : List ParseError) (doc : Bytes)
+    (formats : Option Formats) (o : Options) (h : TreeFits doc j)
+    (hf : AlreadyFormatted j errs doc formats o) :
+    ∀ e ∈ formatText j errs doc formats o, IsNoop (splitLines doc) e := by
+  obtain ⟨hsize, hlines, _⟩ := h
+  have hs := smallLines_of_doc doc hsize
+  obtain ⟨hf1, hf2⟩ := hf
+  unfold formatText
+  rw [formatDocument_eq]
+  intro e he
+  rcases List.mem_append.mp he with he | he
+  · obtain ⟨tx, htx, p, hp, hns, rfl⟩ := txEdits_mem j doc _ o _ e he
+    have hpall : p ∈ allPostings j := List.mem_flatMap.mpr ⟨tx, htx, hp⟩
+    obtain ⟨h1, h2⟩ := hlines p hpall
+    obtain ⟨ok, hl⟩ := postingEdit_ok (splitLines doc) hs p (postingText j tx p (effFormats j formats) o doc) h1 h2
+    have hlt : p.range.start.line - 1 < (splitLines doc).length := by omega
+    have hw : u16len (content ((splitLines doc).getD (p.range.start.line - 1) [])) < 4294967296 := by
+      have := u16len_le_length (content ((splitLines doc).getD (p.range.start.line - 1) []))
+      have := content_length_le ((splitLines doc).getD (p.range.start.line - 1) [])
+      have := hs.width _ (getD_mem (splitLines doc) _ hlt)
+      omega
+    have hline : postingLine p = ((p.range.start.line - 1 : Nat) : Int) := by unfold postingLine; omega
+    refine ⟨ok.sameLine, ok.lineLt, rfl, ?_, ?_⟩
+    · rw [hl]
+      show (UInt32.ofNat (lineU16 (splitLines doc) (postingLine p))).toNat = _
+      rw [hline, lineU16_eq _ _ hlt, ofNat_toNat _ hw]
+    · rw [hl]
+      exact (hf1 tx htx p hp hns).symm
+  · exfalso
+    obtain ⟨ok, _, hnot, htb⟩ := (trimLoop_spec (splitLines doc) hs _ (splitLines doc) 0 rfl).1 e he
+    have hlt := ok.lineLt
+    have := hf2 e.sl.toNat hlt hnot
+    simp only [isTrailingBlankRemoval, Bool.and_eq_true] at htb
+    have hget : (splitLines doc)[e.sl.toNat]? = some ((splitLines doc).getD e.sl.toNat []) := by
+      rw [List.getD_eq_getElem?_getD, List.getElem?_eq_getElem hlt]; rfl
+    rw [hget] at htb
+    simp only [Bool.and_eq_true, decide_eq_true_eq] at htb
+    rw [this] at htb
+    omega
+
+/-! ### Non-vacuity and regression examples (evaluated by the kernel) -/
+
+namespace Example
+
+/-- `2024-01-15 x⏎  a:b  1 USD ; hello⏎  c:d⏎` -/
+def doc : Bytes := [50, 48, 50, 52, 45, 48, 49, 45, 49, 53, 32, 120, 10, 32, 32, 97, 58, 98, 32, 32, 49, 32, 85, 83, 68, 32, 59, 32, 104, 101, 108, 108, 111, 10, 32, 32, 99, 58, 100, 10]
+
+def posting1 (line col off : Nat) : Posting :=
+  { (default : Posting) with
+    account := ⟨[97, 58, 98], Rng.zero⟩,
+    amount := some ⟨⟨1, 0⟩, [49], ⟨[85, 83, 68], .right, Rng.zero⟩, false, Rng.zero⟩,
+    comment := [32, 104, 101, 108, 108, 111],
+    range := ⟨⟨line, col, off⟩, Pos.zero⟩ }
+
+def posting2 (line col off : Nat) : Posting :=
+  { (default : Posting) with account := ⟨[99, 58, 100], Rng.zero⟩, range := ⟨⟨line, col, off⟩, Pos.zero⟩ }
+
+/-- The tree the parser produces for `doc` (positions of the posting starts only). -/
+def journal : Journal :=
+  ⟨[{ (default : Transaction) with postings := [posting1 2 3 15, posting2 3 3 36] }], [], [], []⟩
+
+/-- The formatted text: `2024-01-15 x⏎    a:b  1 USD  ; hello⏎    c:d⏎`, and its tree. -/
+def doc' : Bytes := [50, 48, 50, 52, 45, 48, 49, 45, 49, 53, 32, 120, 10, 32, 32, 32, 32, 97, 58, 98, 32, 32, 49, 32, 85, 83, 68, 32, 32, 59, 32, 104, 101, 108, 108, 111, 10, 32, 32, 32, 32, 99, 58, 100, 10]
+def journal' : Journal :=
+  ⟨[{ (default : Transaction) with postings := [posting1 2 5 17, posting2 3 5 41] }], [], [], []⟩
+
+def opts : Options := ⟨4, true, 0⟩
+
+end Example
+
+/-- The hypotheses of `edits_wellformed` / `nonposting_lines` hold for a real input. -/
+example : TreeFits Example.doc Example.journal := by decide +kernel
+
+/-- DESIGN 8 #5 repaired: the comment ` hello` is written back as `  ; hello` (one blank, not
+    two), and the edits are the two whole-line replacements. -/
+example : formatText Example.journal [] Example.doc none Example.opts =
+    [⟨1, 0, 1, 20, [32, 32, 32, 32, 97, 58, 98, 32, 32, 49, 32, 85, 83, 68, 32, 32, 59, 32, 104, 101, 108, 108, 111]⟩, ⟨2, 0, 2, 5, [32, 32, 32, 32, 99, 58, 100]⟩] := by decide +kernel
+
+instance (j : Journal) (errs : List ParseError) (doc : Bytes) (formats : Option Formats) (o : Options) :
+    Decidable (AlreadyFormatted j errs doc formats o) := by
+  unfold AlreadyFormatted; infer_instance
+
+/-- The guard of `idempotent_partial` holds for the result of the first run (read back by the
+    parser as `journal'`), so the theorem applies: the second run changes nothing. -/
+example : TreeFits Example.doc' Example.journal' ∧
+    AlreadyFormatted Example.journal' [] Example.doc' none Example.opts := by decide +kernel
+
+/-- Model-level face of the known finding `glued-left-commodity`: `a:x1  USD 5` (blank between
+    symbol and quantity in the source, at offset 13) is written `    a:x1  USD5`; the lexer
+    then takes `USD5` for one symbol because the account ends in a digit. -/
+theorem glued_left_commodity_counterexample :
+    let content : Bytes := [32, 32, 97, 58, 120, 49, 32, 32, 85, 83, 68, 32, 53]
+    let p : Posting := { (default : Posting) with
+      account := ⟨[97, 58, 120, 49], Rng.zero⟩,
+      amount := some ⟨⟨5, 0⟩, [53], ⟨[85, 83, 68], .left, ⟨⟨1, 9, 8⟩, ⟨1, 12, 11⟩⟩⟩, false, Rng.zero⟩ }
+    formatPostingWithOpts p ⟨0, 0⟩ none (spaces 4) false content = ([32, 32, 32, 32, 97, 58, 120, 49, 32, 32, 85, 83, 68, 53] : Bytes) := by
+  decide +kernel
+
+/-- Model-level face of the known finding `trimmed-blank-line-splits-entry`: a whitespace-only
+    line is trimmed to an empty line (which the parser treats as the end of the entry). -/
+theorem trimmed_blank_line_counterexample :
+    trimEdit [[32, 32, 32]] 0 [32, 32, 32] = some ⟨0, 0, 0, 3, []⟩ := by decide +kernel
 
 end HL.Props.C05
